@@ -4,16 +4,109 @@ HARNESS = ["keyspace/c18_test.go"]
 GO_TEST = "TestVerifC18"
 RUN_MODULE = "Run_C18"
 COQ_TARGETS = ["Corr/Run_C18.vo", "Proofs/KeyspaceProofs.vo"]
-# N bounds the number of case indices; campaign sizes derive from N/20 (see the harness)
+# N bounds the number of case indices (replay by index); campaign sizes derive from N/20 (see the harness).
 N = {"quick": 3000, "thorough": 30000}
-RULE = ""
-TRUSTED = []
-ASSUMPTIONS = []
+GO_TIMEOUT = {"quick": 600, "thorough": 3000}
+RULE = ("one case = one or two tries built on the real go-libdht trie by a script (Add/AddMany/Remove/PruneSubtrie) and dumped "
+        "structurally, plus a batch of queries (AllKeys, FindPrefixOfKey, FindSubtrie, NextNonEmptyLeaf, PruneSubtrie, CoalesceTrie, "
+        "SubtractTrie, TrieGaps, KeyspaceCovered, AllocateToKClosest, RegionsFromPeers, AssignKeysToRegions, ShortestCoveredPrefix, "
+        "helpers) whose results are checked in Coq against the set-theoretic definition and against the transcription. Campaigns: "
+        "prefix-free sets of bit strings of length <= 3 (thorough: all 677, every key/target/order; quick: a seed-dependent sixth), "
+        "pairs of such sets (subtract) and of 3-bit full keys (allocation, r = 0..4), random histories over strings up to 8 bits, "
+        "non-prefix-free / too-short-order adversarial inputs (panics must match), random 256-bit bit256 tries, long-prefix tries "
+        "with 256-bit orders, random peers/multihashes for regions, assignment and covered prefixes. A case is non-trivial when a "
+        "query reaches a non-default outcome (match found, several gaps, covered, several destinations, panic...); distinct = "
+        "distinct (kind, size class, outcome set) signatures")
+TRUSTED = [
+    "the go-libdht trie source is not derived: its behaviour is transcribed in coq/Model/Trie.v and every trie the harness builds is "
+    "compared structurally with the model's; sha256 (PeerIDToBit256 / MhToBit256) and kb.SortClosestPeers are run by the harness, the "
+    "model receives the 256-bit identifiers and the sorted order",
+    "slices.SortFunc on a strict total order returns the sorted list (insertion sort transcribed for <= 12 elements)",
+]
+ASSUMPTIONS = [
+    "theorems are stated for well-formed tries (every leaf lies on the path spelled by its key), which is what Add/AddMany/Remove/Prune "
+    "produce (proved for Add/AddMany/Prune/Coalesce/Subtract results, checked by the harness on every dumped trie)",
+    "orders are at least as long as the trie is deep (bit256 orders in all callers); keys at most 256 bits where the code iterates with the 256-bit zero key",
+    "k in AllocateToKClosest and regionSize are natural numbers (negative values are not modelled)",
+]
+
+
+# ---- classification of known findings ----------------------------------------------------
+# F13: TrieGaps with a non-empty target returns prefixes above / beside the target.  A failing
+# "gapsT" case is that finding iff every query's result is exactly what the CURRENT algorithm
+# (ported below from trie.go:382-432) returns; any other deviation is a new violation.
+def _siblings(k):
+    return [k[:i] + ('1' if k[i] == '0' else '0') for i in range(len(k))]
+
+
+def _sort_by_order(keys, order):
+    import functools
+
+    def cmp(a, b):
+        m = min(len(a), len(b), len(order))
+        for i in range(m):
+            if a[i] != b[i]:
+                return -1 if a[i] == order[i] else 1
+        if len(a) == len(b) or m == len(order):
+            return 0
+        return 1 if len(a) < len(b) else -1
+    return sorted(keys, key=functools.cmp_to_key(cmp))
+
+
+def _is_leaf(t):
+    return t is None or isinstance(t, dict)
+
+
+def _gaps_at(t, depth, target, order):
+    gaps = []
+    inside = depth >= len(target)
+    b = int(order[depth])
+    for i in (b, 1 - b):
+        if not inside and i != int(target[depth]):
+            continue
+        br = t[i]
+        if _is_leaf(br):
+            if br is not None:
+                k = br["k"]
+                if len(k) > depth + 1:
+                    for sp in _sort_by_order(_siblings(k)[depth + 1:], order):
+                        gaps.append(sp[depth:])
+            else:
+                gaps.append(str(i))
+        else:
+            gaps += [str(i) + g for g in _gaps_at(br, depth + 1, target, order)]
+    return gaps
+
+
+def _trie_gaps_current(t, target, order):
+    if _is_leaf(t):
+        if t is not None:
+            k = t["k"]
+            if k.startswith(target):
+                return _sort_by_order(_siblings(k)[len(target):], order)
+            if target.startswith(k):
+                return []
+        return [target]
+    return _gaps_at(t, 0, target, order)
 
 
 def classify(desc, code):
+    try:
+        if code == 2 and desc.get("kind") == "gapsT":
+            for q in desc.get("qs") or []:
+                if q.get("q") != "gaps" or q.get("target", "") == "":
+                    return None
+                if not isinstance(q.get("out"), list):
+                    return None
+                if _trie_gaps_current(desc.get("s0"), q["target"], q["order"]) != q["out"]:
+                    return None
+            return "triegaps-nonempty-target"
+    except Exception:
+        return None
     return None
 
-TECHNIQUE = ""
+
+TECHNIQUE = ("Coq proof by induction on the trie structure of a Gallina transcription of the keyspace functions against set-theoretic "
+             "definitions over the key set, differential correspondence (model and definitions evaluated in Coq on results of the real code)")
 LEVEL_TEXT = ""
 LEVEL_NOTE = ""
